@@ -71,7 +71,8 @@ def spell(tape, src, dst, noise=True):
     q = ('?' + dst.query) if dst.query else ''
     frag = ''
     if noise and tape.chance(1, 6, 'sp.frag'):
-        frag = '#f%d' % tape.draw(3, 'sp.frag.n')
+        # (a fragment is opaque: slashes, dot segments or a question mark inside it name nothing)
+        frag = ('#f0', '#f1', '#f2', '#s/../other.html', '#a/./b/', '#?x=1', '#/')[tape.draw(7, 'sp.frag.n')]
     if noise and tape.chance(1, 6, 'sp.dot'):
         segs = path.split('/')
         # insert './' or 'zz/../' before a drawn segment (never changes the resolved path)
